@@ -105,6 +105,12 @@ CHECKS['C09'] = ('exploration',
     'Selectors only; dictionary-built models (text cells created as the reader creates them). ' + TB,
     'DESIGN.md §3 C09')
 
+CHECKS['C11'] = ('exploration',
+    'CrossHair/z3 path exploration over (function, argument count, argument values) selectors covering the whole function table; every explored path calls the public registered function',
+    'Bounded exhaustive exploration driven by the symbolic executor over all ~247 names of the function table: with the required number of arguments (and one / two more for variadic functions) drawn from pools of numbers, logicals, text, numeric text, blank, error values and 1x2 / 2x1 arrays, no call raises and every result consists of Excel values only (finite numbers, text, logicals, errors, blanks, arrays of these); for every function outside the documented error-handling / inspection / selection list an error value in any argument position yields an error in every element of the result.',
+    'Pools, not all argument tuples; optional arguments not exercised; quick tier runs the 3-argument pool on a seeded quarter of the table. ' + TB,
+    'DESIGN.md §3 C11')
+
 NA = {
     'C15': 'the dependency closure is computed over openpyxl worksheets read from .xlsx files while mutating the schedula dispatcher; neither can be given a symbolic state (DESIGN §4)',
     'C16': 'placement is done by openpyxl range iteration zipped with np.ravel and compared by re-reading files: I/O and third-party C code, no encodable kernel (DESIGN §4)',
